@@ -26,8 +26,10 @@ def plans(quick):
             dict(family='kinds',
                  gen=dict(steps=3, slots=1, lists=[['k1'], ['k2']], force=False, fail=False), cover_limit=80, walks=30,
                  sim=dict(num=60, depth=10, force=False, fail=False)),
+            dict(family='names', name_mode=True, gen=dict(steps=4, slots=1, rcs=['model', 'model.large', 'top1'], lists=[['model'], ['model.large'], ['top1']], force=False, fail=False), cover_limit=100, walks=40, sim=dict(num=80, depth=10, force=False, fail=False)),
         ]
     return [
+        dict(family='names', name_mode=True, checks=[dict(steps=5, slots=2, force=False, fail=False, count=True)], gen=dict(steps=4, slots=1, force=False), walks=200, sim=dict(num=600, depth=14)),
         dict(family='chain', gen=dict(steps=6, slots=2, rcs=['r1'], lists=[['r1']], force=False, fail=False, restart=False)),
         dict(family='pair', gen=dict(steps=6, slots=2, force=False, fail=False), walks=20000, walk_len=7),
         dict(family='kinds', checks=[dict(steps=5, slots=2, force=False, fail=False, count=True)],
